@@ -87,6 +87,7 @@ def gen_image(ch, galactic=False, small=False):
     spec["pix_arcsec"] = (20.0, 10.0, 30.0)[ch.draw("pixscale", 3)]
     spec["beam_pix"] = (3.0, 4.0, 3.5)[ch.draw("beam_pix", 3)]
     spec["crval"] = ((30.0, -20.0), (359.95, 10.0), (120.0, -75.0), (0.02, 45.0))[ch.draw("crval", 4)]
+    spec["proj"] = ("SIN", "SIN", "TAN", "ZEA", "ARC", "STG")[ch.draw("projection", 6)]
     spec["noise_seed"] = ch.draw("noise_seed", 1 << 20)
     spec["noise"] = 1.0 if not ch.chance("noiseless", 1, 8) else 0.02
     rows, cols = spec["rows"], spec["cols"]
@@ -161,10 +162,11 @@ def write_image(spec, path):
     hdu = fits.PrimaryHDU(img)
     h = hdu.header
     pix = spec["pix_arcsec"] / 3600.0
+    proj = spec.get("proj", "SIN")
     if spec["galactic"]:
-        h["CTYPE1"], h["CTYPE2"] = "GLON-SIN", "GLAT-SIN"
+        h["CTYPE1"], h["CTYPE2"] = "GLON-" + proj, "GLAT-" + proj
     else:
-        h["CTYPE1"], h["CTYPE2"] = "RA---SIN", "DEC--SIN"
+        h["CTYPE1"], h["CTYPE2"] = "RA---" + proj, "DEC--" + proj
     h["CRVAL1"], h["CRVAL2"] = spec["crval"]
     h["CRPIX1"], h["CRPIX2"] = spec["cols"] / 2.0 + 0.5, spec["rows"] / 2.0 + 0.5
     h["CDELT1"], h["CDELT2"] = -pix, pix
